@@ -696,4 +696,8 @@ def kani_spec() -> KaniSpec:
         ("tally_dealloc", "ThreadAllocInfo::tally_dealloc"),
         ("tally_realloc", "ThreadAllocInfo::tally_realloc"),
     ]]
-    return KaniSpec(injections={ALLOC: KANI_MOD}, harnesses=hs)
+    # the profiler's four request paths call the tally function of their kind (harness lives in C09's module: mock allocator)
+    from units import C09
+    hs.append(KaniHarness("verif_c09::requests_tallied_by_kind", "complete",
+                          covers="<AllocProfiler as GlobalAlloc>::{alloc, alloc_zeroed, realloc, dealloc}: which tally function is called, with which sizes"))
+    return KaniSpec(injections={ALLOC: KANI_MOD + C09.KANI}, harnesses=hs)
